@@ -1,95 +1,47 @@
 (* C12 — the client survives hostile servers. Statements only: each theorem is closed by [exact] of a
-   lemma proved in Proofs.v and followed by Print Assumptions.
+   lemma proved in Proofs.v / Proofs2.v and followed by Print Assumptions.
 
    Reading guide. [calls cfg nmedia rev steps c] runs an API sequence against the response script held in
-   the client value [c]; [None] means the client goroutine panicked. [cfg_asis] selects the code that
-   exists in /repo (no repair switched on). A script is a list of actions, one per request the client
-   writes: what the server sends back (responses with any status/headers, stale or CSeq-less responses,
-   requests, interleaved frames, close); an exhausted action is silence, i.e. the ReadTimeout timer.
-   The property is FALSE of the code as it is in six ways (F10, F11, N1-N4 of reports/clientsm.md): each has
-   a [..._refuted] theorem with a concrete script, and the [..._partial] theorems state exactly what
-   remains true. *)
+   the client value [c]; [None] means the client goroutine panicked. [cfg_now p creds back anyport resolve
+   mclisten] is the code that exists in /repo (client options: forced protocol or automatic, credentials,
+   back channels, any-port, resolver and multicast environment). A script is a list of actions, one per
+   request the client writes: what the server sends back (responses with any status/headers, stale or
+   CSeq-less responses, requests, interleaved frames, close); an exhausted action is silence, i.e. the
+   ReadTimeout timer.  The six defects found by this domain (F10, F11, N1-N4) are repaired in /repo
+   (ddd2501, 09a799a, de76fe4, dea4e7d, f303bfa, d468819); the theorems below are the full statements for
+   the repaired code; the old refutation witnesses are kept at the end as regression Examples about the code
+   before those commits ([cfg_before]); the former statement file is history/Props_C12_before_fixes.v. *)
 From GVL Require Import NList.
-From GV_clientsm Require Import Model Proofs.
+From GVG Require Import Consts.
+From GV_clientsm Require Import Model Proofs Proofs2.
 Open Scope N_scope.
 
 (* An accepted SETUP response agrees with the request: same lower transport, compatible delivery, same
    profile; UDP: usable server ports unless any-port mode; TCP: a consecutive, unused channel pair, which
-   is the one registered. (Literal transcription of client.go:1886-2072.) *)
+   is the one registered. (Literal transcription of the decision tree in doSetup.) *)
 Theorem C12_clientsm_setup_validation_sound : forall cfg s p secure t ch,
   validate cfg s p secure t = VAccept ch -> th_agrees cfg s p secure t ch.
 Proof. exact validate_sound. Qed.
 Print Assumptions C12_clientsm_setup_validation_sound.
 
-(* Never panics — PARTIAL. For every configuration, every API sequence and every response script, the
-   client goroutine does not panic and every call returns a result, PROVIDED the side conditions [run_ok]
-   hold along the run: (a) the control attribute of every media that is set up resolves to a URL,
-   (b) when a protocol switch happens a DESCRIBE has been made before (or the protocol is forced),
-   (c) Record() is only called once a SETUP has succeeded. Missing for the full statement: exactly
-   (a) = F10, (b) = N1, (c) = N3, refuted below. *)
-Theorem C12_clientsm_no_panic_partial : forall cfg nm rev steps sc desc,
-  run_ok cfg nm rev steps (cl_init sc desc) ->
-  exists c ks, calls cfg nm rev steps (cl_init sc desc) = Some (c, ks) /\ cl_ok c /\ length ks = length steps.
-Proof. intros. apply calls_ok; [apply cl_init_ok|assumption]. Qed.
-Print Assumptions C12_clientsm_no_panic_partial.
+(* The client never panics: for every client configuration, every API sequence (valid or not) and every
+   response script, every call returns a result, and the run-loop invariant holds afterwards. *)
+Theorem C12_clientsm_no_panic : forall p creds back anyport resolve mclisten nm rev steps sc desc,
+  exists c ks, calls (cfg_now p creds back anyport resolve mclisten) nm rev steps (cl_init sc desc) = Some (c, ks) /\
+               cl_ok c /\ length ks = length steps.
+Proof. intros. apply client_no_panic. apply cfg_now_repaired. Qed.
+Print Assumptions C12_clientsm_no_panic.
 
-(* F10: OPTIONS answered 401 once (credentials configured), DESCRIBE carries a=control:trackID=%zz:
-   Describe succeeds, Setup panics (nil URL in AddAuthorization). *)
-Theorem C12_clientsm_no_panic_refuted_F10 :
-  calls (cfg_asis None true) 1 false [ADescribe; ASetup 0] (cl_init script_f10 None) = None.
-Proof. exact f10_panics. Qed.
-Print Assumptions C12_clientsm_no_panic_refuted_F10.
-
-(* F10 without credentials: the SETUP written with the nil URL is answered 401 (req.URL.User). *)
-Theorem C12_clientsm_no_panic_refuted_F10_401 :
-  calls (cfg_asis None false) 1 false [ADescribe; ASetup 0] (cl_init script_f10b None) = None.
-Proof. exact f10b_panics. Qed.
-Print Assumptions C12_clientsm_no_panic_refuted_F10_401.
-
-(* N1: ANNOUNCE, SETUP; the UDP SETUP is answered with a TCP transport; the switch re-DESCRIBEs a nil URL. *)
-Theorem C12_clientsm_no_panic_refuted_switch_without_describe :
-  calls (cfg_asis None false) 1 false [AAnnounce; ASetup 0] (cl_init script_n1 None) = None.
-Proof. exact n1_panics. Qed.
-Print Assumptions C12_clientsm_no_panic_refuted_switch_without_describe.
-
-(* N3: ANNOUNCE accepted, SETUP answered 404, Record(): nil setuppedTransport. *)
-Theorem C12_clientsm_no_panic_refuted_record_without_setup :
-  calls (cfg_asis None false) 1 false [AAnnounce; ASetup 0; ARecord] (cl_init script_n3 None) = None.
-Proof. exact n3_panics. Qed.
-Print Assumptions C12_clientsm_no_panic_refuted_record_without_setup.
-
-(* Each call terminates within its timeouts — PARTIAL: Options, Announce, Play, Record, Pause and Close write
-   at most 10 requests (each waited for at most ReadTimeout), whatever the server does and from any state.
-   Missing: Describe, Setup and the protocol switch of the idle timer, refuted next. *)
-Theorem C12_clientsm_call_terminates_partial : forall cfg nm rev a c c' k,
-  simple_call a = true -> call cfg nm rev a c = Some (c', k) ->
-  wsent (cl_w c) <= wsent (cl_w c') /\ wsent (cl_w c') <= wsent (cl_w c) + 10.
-Proof. exact simple_call_bounded. Qed.
-Print Assumptions C12_clientsm_call_terminates_partial.
-
-(* F11: for every n there is a script (n redirects) on which the handler of one Describe() call writes
-   2n+1 requests: no bound exists. *)
-Theorem C12_clientsm_describe_terminates_refuted : forall n : nat,
-  exists sc w' r,
-    do_describe (S (length sc)) (cfg_asis None false) None false (mkW st0 sc 0 false) = (w', r) /\
-    wsent w' = 2 * N.of_nat n + 1.
-Proof. exact describe_requests_unbounded. Qed.
-Print Assumptions C12_clientsm_describe_terminates_refuted.
-
-(* with a redirect budget L (the proposed repair) Describe() writes at most 10 (L+1) + 4 requests *)
-Theorem C12_clientsm_describe_bounded_with_limit : forall cfg nm rev c c' k L,
-  xf11 cfg = Some L -> call cfg nm rev ADescribe c = Some (c', k) ->
-  wsent (cl_w c) <= wsent (cl_w c') /\ wsent (cl_w c') <= wsent (cl_w c) + (10 * (N.of_nat L + 1) + 4).
-Proof. exact describe_call_bounded. Qed.
-Print Assumptions C12_clientsm_describe_bounded_with_limit.
-
-(* N2: a server answering every UDP SETUP with a TCP transport and alternating 301 / 200 on DESCRIBE keeps
-   ONE Setup() call busy: here 20 rounds, more than 100 requests, the whole script consumed. *)
-Theorem C12_clientsm_setup_terminates_refuted :
-  exists c ks, calls (cfg_asis None false) 1 false [ADescribe; ASetup 0] (cl_init (script_n2 20) None) = Some (c, ks) /\
-               100 < wsent (cl_w c) /\ wsc (cl_w c) = [].
-Proof. exact n2_setup_loops. Qed.
-Print Assumptions C12_clientsm_setup_terminates_refuted.
+(* Every call returns within its timeouts: from any state and against any script a call writes at most
+   [call_bound] requests, each of which is waited for at most ReadTimeout: Describe 10 (L+1) + 4,
+   Setup 30 (L+2) + 4, the protocol switch of the idle timer 4 + 10 (L+1) + 30 (L+2) n + 10 for n set-up medias,
+   every other call 10, where L = clientMaxRedirects (regenerated from client.go). *)
+Theorem C12_clientsm_call_terminates : forall p creds back anyport resolve mclisten nm rev a c c' k,
+  call (cfg_now p creds back anyport resolve mclisten) nm rev a c = Some (c', k) ->
+  wsent (cl_w c) <= wsent (cl_w c') /\
+  wsent (cl_w c') <= wsent (cl_w c) + call_bound (N.to_nat csm_max_redirects) a c.
+Proof. intros. eapply call_bounded; [apply cfg_now_repaired|eassumption]. Qed.
+Print Assumptions C12_clientsm_call_terminates.
 
 (* After the run loop has ended every call returns the stored closeError at once: it consumes no event and
    changes nothing (a Setup the caller skips is reported as skipped). *)
@@ -99,22 +51,23 @@ Theorem C12_clientsm_failure_is_sticky : forall cfg nm rev a c e,
 Proof. exact dead_call_sticky. Qed.
 Print Assumptions C12_clientsm_failure_is_sticky.
 
-(* ... and the stored error is the one the fatal call returned (Close stores "terminated") — PARTIAL: the
-   statement says nothing when that call returned success, which happens (N4, next). *)
-Theorem C12_clientsm_failure_reported_partial : forall cfg nm rev a c c' k e,
-  cl_dead c = None -> call cfg nm rev a c = Some (c', k) -> cl_dead c' = Some e ->
-  e = k \/ (a = AClose /\ e = eTerminated).
-Proof. exact death_reports. Qed.
-Print Assumptions C12_clientsm_failure_reported_partial.
+(* ... and the stored error is the failure: whenever a call ends the run loop of a live client, the
+   closeError it stores is the error class that very call returned, and it did return an error (never a
+   nil error); Close stores "terminated"; for the idle timer the stored error is the one its handler got.
+   A client that stays alive has no pending failure. [cl_ok2] holds initially and after every call. *)
+Theorem C12_clientsm_failure_reported : forall p creds back anyport resolve mclisten nm rev a c c' k,
+  cl_ok2 c -> call (cfg_now p creds back anyport resolve mclisten) nm rev a c = Some (c', k) ->
+  (cl_dead c' = None -> st_mustclose (wst (cl_w c')) = false) /\
+  (cl_dead c = None -> forall e, cl_dead c' = Some e ->
+     (a = AClose /\ e = eTerminated) \/ (e = k /\ (k <> 0 \/ a = AIdle))).
+Proof. intros. eapply failure_reported; [apply cfg_now_repaired|eassumption|eassumption]. Qed.
+Print Assumptions C12_clientsm_failure_reported.
 
-(* N4: a Describe() that returns success while the client ends with a nil closeError; the next call
-   returns "success" without sending anything. *)
-Theorem C12_clientsm_failure_reported_refuted :
-  exists c ks, calls (cfg_asis (Some PTCP) false) 1 false [ADescribe; ASetup 0; ADescribe; AOptions]
-                 (cl_init script_n4 None) = Some (c, ks) /\
-               ks = [0; 0; 0; 0] /\ cl_dead c = Some 0 /\ wsc (cl_w c) = [].
-Proof. exact n4_nil_close_error. Qed.
-Print Assumptions C12_clientsm_failure_reported_refuted.
+Theorem C12_clientsm_reachable_states_ok : forall p creds back anyport resolve mclisten nm rev steps sc desc,
+  exists c ks, calls (cfg_now p creds back anyport resolve mclisten) nm rev steps (cl_init sc desc) = Some (c, ks) /\
+               cl_ok2 c.
+Proof. intros. apply calls_keep_ok2; [apply cfg_now_repaired|apply cl_init_ok2]. Qed.
+Print Assumptions C12_clientsm_reachable_states_ok.
 
 (* Close (and any failure that ends the run loop) releases everything: from every state satisfying the
    run-loop invariant, the ledger of connection, reader goroutine, writer goroutine and UDP listeners is
@@ -126,41 +79,36 @@ Proof. exact die_spec. Qed.
 Print Assumptions C12_clientsm_close_releases.
 
 (* every call keeps the invariant; whenever a call ends the run loop the ledger is empty *)
-Theorem C12_clientsm_every_death_releases : forall cfg nm rev a c,
-  cl_ok c -> arg_ok cfg a c ->
-  exists c' k, call cfg nm rev a c = Some (c', k) /\ cl_ok c' /\
+Theorem C12_clientsm_every_death_releases : forall p creds back anyport resolve mclisten nm rev a c,
+  cl_ok c ->
+  exists c' k, call (cfg_now p creds back anyport resolve mclisten) nm rev a c = Some (c', k) /\ cl_ok c' /\
                (cl_dead c = None -> cl_dead c' <> None -> ledger (wst (cl_w c')) = 0).
-Proof. exact call_ok. Qed.
+Proof. intros. apply call_keeps_ok; [apply cfg_now_repaired|assumption]. Qed.
 Print Assumptions C12_clientsm_every_death_releases.
 
 (* ---------- non-vacuity ---------- *)
+
+(* the bounds in numbers, for the constant read from client.go today *)
+Example C12_example_bounds : forall c,
+  call_bound (N.to_nat csm_max_redirects) ADescribe c = 114 /\
+  call_bound (N.to_nat csm_max_redirects) (ASetup 0) c = 364 /\
+  call_bound (N.to_nat csm_max_redirects) APlay c = 10.
+Proof. intro c. vm_compute. repeat split; reflexivity. Qed.
 
 (* a correct conversation over TCP: every call succeeds, Close leaves nothing behind *)
 Example C12_example_correct_conversation :
   let sc := [(mOptions, [EvResp (rsimple 200)]); (mDescribe, [EvResp (rdescribe [mOK; mOK])]);
              (mSetup, [EvResp (rsetup_tcp 0 1)]); (mSetup, [EvResp (rsetup_tcp 2 3)]);
              (mPlay, [EvResp (rsimple 200)]); (mPause, [EvResp (rsimple 200)])] in
-  exists c, calls (cfg_asis (Some PTCP) false) 2 false [ADescribe; ASetup 0; ASetup 1; APlay; APause; AClose]
+  exists c, calls (cfg_cur (Some PTCP) false) 2 false [ADescribe; ASetup 0; ASetup 1; APlay; APause; AClose]
               (cl_init sc None) = Some (c, [0; 0; 0; 0; 0; 0]) /\
             cl_dead c = Some eTerminated /\ ledger (wst (cl_w c)) = 0 /\ wsent (cl_w c) = 6.
 Proof. eexists. vm_compute. repeat split; reflexivity. Qed.
 
-(* the side conditions of the partial theorem are satisfiable: locally built medias, forced TCP *)
-Example C12_example_run_ok : forall sc,
-  run_ok (cfg_asis (Some PTCP) false) 1 false [ASetup 0; APlay; APause] (cl_init sc (Some [mOK])).
-Proof.
-  intro sc. cbn [run_ok]. split.
-  { split; [|right; right; discriminate].
-    intros ms m Hd Hn. inversion Hd; subst. cbn in Hn. inversion Hn; subst. left; discriminate. }
-  destruct (call _ 1 false (ASetup 0) _) as [[c1 k1]|]; [|exact I]. split; [exact I|].
-  destruct (call _ 1 false APlay c1) as [[c2 k2]|]; [|exact I]. split; [exact I|].
-  destruct (call _ 1 false APause c2) as [[c3 k3]|]; exact I.
-Qed.
-
 (* silence after the SETUP request: timeout, the client is dead and says so afterwards *)
 Example C12_example_timeout_is_sticky :
   let sc := [(mOptions, [EvResp (rsimple 200)]); (mDescribe, [EvResp (rdescribe [mOK])]); (mSetup, [])] in
-  exists c, calls (cfg_asis None false) 1 false [ADescribe; ASetup 0; APlay; AOptions] (cl_init sc None)
+  exists c, calls (cfg_cur None false) 1 false [ADescribe; ASetup 0; APlay; AOptions] (cl_init sc None)
             = Some (c, [0; eTimeout; eTimeout; eTimeout]) /\ ledger (wst (cl_w c)) = 0.
 Proof. eexists. vm_compute. split; reflexivity. Qed.
 
@@ -168,6 +116,55 @@ Proof. eexists. vm_compute. split; reflexivity. Qed.
 Example C12_example_validation_rejects :
   let sc := [(mOptions, [EvResp (rsimple 200)]); (mDescribe, [EvResp (rdescribe [mOK; mOK])]);
              (mSetup, [EvResp (rsetup_tcp 0 1)]); (mSetup, [EvResp (rsetup_tcp 1 2)])] in
-  exists c, calls (cfg_asis (Some PTCP) false) 2 false [ADescribe; ASetup 0; ASetup 1] (cl_init sc None)
+  exists c, calls (cfg_cur (Some PTCP) false) 2 false [ADescribe; ASetup 0; ASetup 1] (cl_init sc None)
             = Some (c, [0; 0; eInterlInUse]).
 Proof. eexists. vm_compute. reflexivity. Qed.
+
+(* the scripts that used to break the client are now answered with plain errors *)
+Example C12_example_F10_now : exists c ks,
+  calls (cfg_cur None true) 1 false [ADescribe; ASetup 0] (cl_init script_f10 None) = Some (c, ks) /\
+  ks = [0; eInvalidMediaURL] /\ cl_dead c = None.
+Proof. exact f10_repaired. Qed.
+Example C12_example_N2_now : exists c ks,
+  calls (cfg_cur None false) 1 false [ADescribe; ASetup 0] (cl_init (script_n2 20) None) = Some (c, ks) /\
+  wsent (cl_w c) < 12.
+Proof. exact n2_repaired. Qed.
+Example C12_example_F11_now : exists c ks,
+  calls (cfg_cur None false) 1 false [ADescribe] (cl_init (redirects 50) None) = Some (c, ks) /\
+  ks = [eTooManyRedirects] /\ wsent (cl_w c) = 22.
+Proof. eexists; eexists. vm_compute. repeat split; reflexivity. Qed.
+Example C12_example_N1_now : exists c,
+  calls (cfg_cur None false) 1 false [AAnnounce; ASetup 0] (cl_init script_n1 None) = Some (c, [0; eThInvalid]).
+Proof. eexists. vm_compute. reflexivity. Qed.
+Example C12_example_N3_now : exists c,
+  calls (cfg_cur None false) 1 false [AAnnounce; ASetup 0; ARecord] (cl_init script_n3 None)
+  = Some (c, [0; eBadStatus; eNoTransport]).
+Proof. eexists. vm_compute. reflexivity. Qed.
+Example C12_example_N4_now : exists c,
+  calls (cfg_cur (Some PTCP) false) 1 false [ADescribe; ASetup 0; ADescribe] (cl_init script_n4 None)
+  = Some (c, [0; 0; 0]) /\ cl_dead c = None.
+Proof. eexists. vm_compute. split; reflexivity. Qed.
+
+(* ---------- regression: the same scripts against the code BEFORE the fix commits ---------- *)
+Example C12_regression_old_F10 :
+  calls (cfg_before None true) 1 false [ADescribe; ASetup 0] (cl_init script_f10 None) = None /\
+  calls (cfg_before None false) 1 false [ADescribe; ASetup 0] (cl_init script_f10b None) = None.
+Proof. split; [exact f10_panics|exact f10b_panics]. Qed.
+Example C12_regression_old_F11 : forall n : nat,
+  exists sc w' r,
+    do_describe (S (length sc)) (cfg_before None false) None false (mkW st0 sc 0 false) = (w', r) /\
+    wsent w' = 2 * N.of_nat n + 1.
+Proof. exact describe_requests_unbounded. Qed.
+Example C12_regression_old_N1_N3 :
+  calls (cfg_before None false) 1 false [AAnnounce; ASetup 0] (cl_init script_n1 None) = None /\
+  calls (cfg_before None false) 1 false [AAnnounce; ASetup 0; ARecord] (cl_init script_n3 None) = None.
+Proof. split; [exact n1_panics|exact n3_panics]. Qed.
+Example C12_regression_old_N2 :
+  exists c ks, calls (cfg_before None false) 1 false [ADescribe; ASetup 0] (cl_init (script_n2 20) None) = Some (c, ks) /\
+               100 < wsent (cl_w c) /\ wsc (cl_w c) = [].
+Proof. exact n2_setup_loops. Qed.
+Example C12_regression_old_N4 :
+  exists c ks, calls (cfg_before (Some PTCP) false) 1 false [ADescribe; ASetup 0; ADescribe; AOptions]
+                 (cl_init script_n4 None) = Some (c, ks) /\
+               ks = [0; 0; 0; 0] /\ cl_dead c = Some 0 /\ wsc (cl_w c) = [].
+Proof. exact n4_nil_close_error. Qed.
